@@ -67,7 +67,8 @@ class Recorder:
             if p is not None and p.startswith(rec.folder + os.sep) and any(c in mode for c in "wax+"):
                 name = os.path.basename(p)
                 if "w" in mode:
-                    rec.trace.append(("open_w", name))
+                    rec.snapshot_previous()
+                    rec.trace.append(["open_w", name, None])
                     rec.opened.append(name)
             return real_open(file, mode, *a, **kw)
         self.seams.set_attr(builtins, "open", open_logger)
@@ -84,8 +85,9 @@ class Recorder:
                 if mode == "r" or not p.startswith(rec.folder + os.sep):
                     return h5py.File(name, mode=mode, **kw)
                 base = os.path.basename(p)
+                rec.snapshot_previous()
                 if mode == "w" or not os.path.exists(p):
-                    rec.trace.append(("open_w", base))
+                    rec.trace.append(["open_w", base, None])
                     rec.opened.append(base)
                     f = real_open(p, "w+b")
                 else:
@@ -114,18 +116,29 @@ class Recorder:
                 pass
         return False
 
+    def snapshot_previous(self):
+        """A sequentially written file is complete when the next file is opened: remember what that open wrote
+        (the same file may be written more than once during one save)."""
+        for ev in reversed(self.trace):
+            if ev[0] == "open_w":
+                if ev[2] is None and ev[1] != "series_samp.h5":
+                    try:
+                        ev[2] = Path(self.folder, ev[1]).read_bytes()
+                    except OSError:
+                        ev[2] = b""
+                break
+
     def finish(self):
-        """Turn the recording into the operation list: sequential files become one truncate + one write of the final content."""
+        """Turn the recording into the operation list: every open of a sequential file becomes one truncate + one
+        write of the content that open produced."""
+        self.snapshot_previous()
         ops = []
-        seq_done = set()
         for ev in self.trace:
             if ev[0] == "open_w":
                 name = ev[1]
                 ops.append(("trunc", name))
-                if name != "series_samp.h5" and name not in seq_done:
-                    content = Path(self.folder, name).read_bytes()
-                    ops.append(("write", name, 0, content))
-                    seq_done.add(name)
+                if name != "series_samp.h5":
+                    ops.append(("write", name, 0, ev[2] if ev[2] is not None else Path(self.folder, name).read_bytes()))
             elif ev[0] == "write":
                 ops.append(("write", ev[1], ev[2], ev[3]))
             elif ev[0] == "truncate":
